@@ -24,6 +24,8 @@ func init() {
 		Entries: []EntrySpec{
 			{Pkg: "biscuit", Func: "VerifC04Verdict", Quick: sc("authFacts", 1, "authRule", 2, "authCheck", 2, "policies", 1), Thorough: sc("authFacts", 2, "authRule", 2, "authCheck", 3, "policies", 2), Covers: []string{"allow", "failed"}},
 			{Pkg: "biscuit", Func: "VerifC04Verdict", Quick: sc("authFacts", 1, "blocks", 1, "blkFacts", 1, "blkRule", 2, "blkCheck", 1), Thorough: sc("authFacts", 1, "authRule", 1, "blocks", 1, "blkFacts", 1, "blkRule", 2, "blkCheck", 2), Covers: []string{"allow", "failed"}},
+			// authority-level rules next to a block with facts and a check: they must not be applied to the block's facts
+			{Pkg: "biscuit", Func: "VerifC04Verdict", Quick: sc("authFacts", 0, "authRule", 1, "azRule", 1, "blocks", 1, "blkFacts", 1, "blkCheck", 2), Thorough: sc("authFacts", 0, "authRule", 2, "azRule", 1, "blocks", 1, "blkFacts", 1, "blkCheck", 2), Covers: []string{"nomatch", "failed"}},
 			{Pkg: "biscuit", Func: "VerifC04Verdict", Quick: sc("authFacts", 2, "policies", 2, "polMode", 1, "polq", 2), Thorough: sc("authFacts", 2, "authRule", 1, "policies", 2, "polMode", 2, "polq", 2), Covers: []string{"allow", "denied", "nomatch"}},
 			{Pkg: "biscuit", Func: "VerifC04Verdict", Quick: sc("authFacts", 1, "azFacts", 1, "azRule", 2, "azCheck", 1), Thorough: sc("authFacts", 1, "azFacts", 1, "azRule", 2, "azCheck", 3, "policies", 2), Covers: []string{"allow", "failed"}},
 		},
@@ -100,11 +102,16 @@ func init() {
 		Entries: []EntrySpec{
 			{Pkg: "biscuit", Func: "VerifC13Reset",
 				Quick:    sc2(sc("authFacts", 1), "az1Facts", 1, "az1Rule", 0, "az1Check", 0, "az2Facts", 0, "az2Rule", 0, "az2Check", 1),
-				Thorough: sc2(sc("authFacts", 1, "authRule", 1, "policies", 2), "az1Facts", 1, "az1Rule", 2, "az1Check", 1, "az2Facts", 1, "az2Rule", 1, "az2Check", 2),
+				Thorough: sc2(sc("authFacts", 1), "az1Facts", 1, "az1Rule", 1, "az1Check", 0, "az2Facts", 1, "az2Rule", 0, "az2Check", 1),
+				Covers:   []string{"compared"}},
+			// round 1 leaves derived facts and a check behind; round 2 has a rule of its own
+			{Pkg: "biscuit", Func: "VerifC13Reset",
+				Quick:    sc2(sc("authFacts", 1), "az1Facts", 1, "az1Rule", 1, "az1Check", 0, "az2Facts", 0, "az2Rule", 0, "az2Check", 1),
+				Thorough: sc2(sc("authFacts", 1), "az1Facts", 1, "az1Rule", 0, "az1Check", 1, "az2Facts", 0, "az2Rule", 1, "az2Check", 1),
 				Covers:   []string{"compared"}},
 		},
 		Assumptions: authzAssume, Models: relModels,
-		Explanation: "an authorizer is used for round 1 (authorize or query, any outcome), Reset, then round 2; a fresh authorizer gets round 2 only; outcomes and query results compared",
+		Explanation: "an authorizer is used for round 1 (authorize, query, run-limit error or a loaded snapshot; any outcome), Reset, then round 2 (through another snapshot when round 1 was one); a fresh authorizer gets round 2 only; outcomes and query results compared",
 		LevelText:   "Bounded symbolic relational model checking of Reset: for all round-1 and round-2 contents of the scenario family the reused authorizer and a fresh one agree on the outcome class and on query results.",
 		LevelNote:   "Two rounds; scenario families as listed.", DesignRef: "DESIGN.md §6 authz family",
 	})
